@@ -135,11 +135,11 @@ def make_noise(kind: str, signal: str, counter: dict):
     if kind == "async-raise":
         async def f():
             bump()
-            raise RuntimeError("subscriber failure")
+            raise RuntimeError("subscriber failure: unexpected payload {'user': 1} {} {0} {")      # (text with braces)
     elif kind == "sync-raise":
         def f():
             bump()
-            raise ValueError("sync subscriber failure")
+            raise KeyError({"missing": "{key}"})
     elif kind == "slow":
         async def f():
             bump()
